@@ -27,9 +27,9 @@ FORBIDDEN = re.compile(
 
 # property -> (Lean property modules, theorem-name prefix)
 LEAN_MODULES = {
-    "C01": ["TFV.Properties.EA", "TFV.Properties.Heap"],
-    "C02": ["TFV.Properties.EA"],
-    "C03": ["TFV.Properties.EA"],
+    "C01": ["TFV.Properties.EA", "TFV.Properties.Heap", "TFV.Properties.Src.Engine"],
+    "C02": ["TFV.Properties.EA", "TFV.Properties.Src.Engine"],
+    "C03": ["TFV.Properties.EA", "TFV.Properties.Src.Engine"],
     "C04": ["TFV.Properties.Rng"],
     "C05": ["TFV.Properties.EA"],
     "C06": ["TFV.Properties.BinOps", "TFV.Properties.Runs"],
@@ -52,6 +52,9 @@ LEAN_MODULES = {
 # kernels of /repo that are TRANSLATED into Lean on every run (harness/extract/py2lean.py) and proved equal to the
 # hand-written model by the theorems C*_src_* of TFV/Properties/Src/*.lean
 SRC_KERNELS = {
+    "C01": ["TheFittest_replace", "TheFittest_update"],
+    "C02": ["TheFittest_replace", "TheFittest_update"],
+    "C03": ["TheFittest_replace", "TheFittest_update", "termination_check", "get_remains_calls"],
     "C07": ["bounds_control"],
     "C09": ["find_end_subtree_from_i", "find_id_args_from_i", "find_first_difference_between_two"],
     "C11": ["binary_search_interval", "check_for_value", "argsort_k"],
